@@ -11,7 +11,8 @@
    the engine model's result both EQUAL the specification on every generated case
    (C06_engine_statement below is the full claim for the model). *)
 From Coq Require Import List Bool Arith NArith.
-From CrabV Require Import Fix.Wto Fix.Engine Fix.Kleene Fix.KleeneSound Fix.EngineFS Fix.EngineCheck.
+From CrabV Require Import Fix.Wto Fix.Engine Fix.EngineBelow Fix.Kleene Fix.KleeneSound Fix.EngineFS Fix.EngineCheck
+     Fix.EngineFSSound.
 Import ListNotations.
 
 Theorem C06_least_solution_is_reachability : forall F rounds t, in_range F -> lfp F rounds = Some t ->
@@ -51,6 +52,31 @@ Theorem C06_inductive_tables_contain_reachability :
   (forall n s, RPost A State gamma bstep preds entry use_asm asm Init n s -> In n nodes /\ gamma (post n) s).
 Proof. intros. eapply inductive_sound; eauto. Qed.
 
+(* the engine model never invents a state: every table entry is included in the least
+   solution — all CFGs, all WTOs in which the start block occurs in a cycle only as its head,
+   all delays / descending counts / fuel, any assumption map *)
+Theorem C06_engine_below_least_solution :
+  forall S F w delay desc fuel use_asm t, in_range F -> solves F t ->
+  (use_asm = false -> forall n, f_asm F n = None) ->
+  forall e, entry_ok (f_entry F) w = true -> sub (f_init F) (Lpre F t (f_entry F)) ->
+  fs_engine S F w delay desc use_asm fuel = Some e ->
+  forall n, sub (e_pre N e n) (Lpre F t n) /\ sub (e_post N e n) (Lpost F t n).
+Proof. exact fs_engine_below. Qed.
+
+(* ... and it IS the least solution, i.e. exactly the reaching states, whenever the
+   verified inductiveness test accepts its tables (tested on every generated case) *)
+Theorem C06_engine_exact_when_accepted :
+  forall S F w delay desc fuel rounds use_asm t, in_range F -> lfp F rounds = Some t ->
+  (use_asm = false -> forall n, f_asm F n = None) ->
+  forall e, entry_ok (f_entry F) w = true -> sub (f_init F) (fst t (f_entry F)) ->
+  fs_engine S F w delay desc use_asm fuel = Some e ->
+  inductive_ok N (fs_ops S) (fun n a => image (f_rel F n) a) (f_preds F) (f_entry F) use_asm (f_asm F)
+               (f_init F) (seq 0 (f_blocks F)) (e_pre N e) (e_post N e) = true ->
+  forall n s, n < f_blocks F ->
+    (smem s (e_pre N e n) = true <-> ReachPre F n s) /\
+    (smem s (e_post N e n) = true <-> ReachPost F n s).
+Proof. exact fs_engine_exact. Qed.
+
 (* full claim for the engine model (corresponded, not proved) *)
 Definition C06_engine_statement : Prop :=
   forall S F w delay desc use_asm fuel rounds e t,
@@ -77,3 +103,5 @@ Print Assumptions C06_least_solution_is_reachability.
 Print Assumptions C06_iterates_below_reachability.
 Print Assumptions C06_no_extrapolation_within_delay.
 Print Assumptions C06_inductive_tables_contain_reachability.
+Print Assumptions C06_engine_below_least_solution.
+Print Assumptions C06_engine_exact_when_accepted.
